@@ -214,8 +214,18 @@ def d3_refuse_non_arrays(ctx):
     f = ctx.repo.func('raggedarray.delete_raggedarray')
     for e in ctx.E.primitives(f):
         if e.kind == 'DELETE':
-            ok = any('is_dir' in norm(p.test) and isinstance(p.test, (ast.BoolOp, ast.UnaryOp))
-                     for p, _ in enclosing_tests(f, e.node))
+            # path conditions: when the name is a directory the unlink is unreachable
+            from ..pathcond import runs_under as _ru
+
+            def _isdir(t):
+                def atoms(x):
+                    if isinstance(x, ast.Call) and isinstance(x.func, ast.Attribute) and x.func.attr == 'is_dir':
+                        return True
+                    if is_exists_call(x):
+                        return True
+                    return None
+                return eval_bool(t, atoms)
+            ok = _ru(f, e.node, _isdir) is False
             ctx.decide(ok, 'R-OWN', 'D3', f, e.node, 'top-level-files-only',
                        'delete_raggedarray unlinks top-level names only when they are not directories',
                        detail='unlink is not guarded by `not path.is_dir()`')
@@ -364,24 +374,24 @@ def d6_archive_copy(ctx):
                'archive performs no file-system effect other than creating the archive',
                detail='; '.join(e.describe() for e in others))
     for e in tars:
-        # validation precedes
-        gates = []
-        for n in own_nodes(f.node):
-            if isinstance(n, ast.If) and always_raises(n.body) and \
-                    'compressiontype' in names_in(n.test) and \
-                    any(isinstance(o, ast.NotIn) for c in ast.walk(n.test) if isinstance(c, ast.Compare)
-                        for o in c.ops):
-                gates.append(n)
-        ctx.decide(bool(gates) and must_precede(f, e.node, gates), 'R-DOM', 'D6', f, e.node,
+        # validation precedes: with a compression type outside the supported set (locals inlined, tests folded)
+        # tarfile.open is unreachable and ValueError is raised — whatever the polarity/layout of the test
+        from ..pathcond import runs_under, outcome_under
+        from ._trunc import folder
+        ft = folder({'compressiontype': '<<unsupported>>'}, f)
+        normal, raised = outcome_under(f, ft)
+        ctx.decide(runs_under(f, e.node, ft) is False and 'ValueError' in raised, 'R-DOM', 'D6', f, e.node,
                    'compression-validated-first',
                    'archive validates the compression type before tarfile.open',
                    detail='tarfile.open is reachable without the ValueError check')
         # mode
         marg = get_arg(e.node, 1, 'mode')
         ok, why = _tar_mode_ok(f, marg)
-        ctx.decide(ok, 'R-FLOW', 'D6', f, e.node, 'exclusive-create-unless-overwrite',
-                   f'archive opens the tar file with mode {norm(marg) if marg is not None else None}: '
-                   f"'x' unless overwrite", detail=why)
+        inst = f"archive opens the tar file with mode {norm(marg) if marg is not None else None}: 'x' unless overwrite"
+        if ok is None:
+            ctx.assume('R-FLOW', 'D6', f, e.node, 'exclusive-create-unless-overwrite', inst, detail=why)
+        else:
+            ctx.decide(ok, 'R-FLOW', 'D6', f, e.node, 'exclusive-create-unless-overwrite', inst, detail=why)
     adds = [n for n in own_nodes(f.node) if isinstance(n, ast.Call) and
             isinstance(n.func, ast.Attribute) and n.func.attr == 'add']
     ok = False
@@ -414,43 +424,73 @@ def d6_archive_copy(ctx):
                        'copytree is called with dirs_exist_ok=False', detail='dirs_exist_ok is not False')
 
 
+def _mode_head(marg):
+    """The expression that supplies the first character(s) of the tar mode string, or None."""
+    if isinstance(marg, ast.JoinedStr) and marg.values:
+        v0 = marg.values[0]
+        if isinstance(v0, ast.FormattedValue):
+            return v0.value
+        if isinstance(v0, ast.Constant):
+            return v0
+    if isinstance(marg, ast.BinOp) and isinstance(marg.op, ast.Add):
+        e = marg
+        while isinstance(e, ast.BinOp) and isinstance(e.op, ast.Add):
+            e = e.left
+        return e
+    if isinstance(marg, ast.BinOp) and isinstance(marg.op, ast.Mod) and isinstance(marg.left, ast.Constant) and \
+            isinstance(marg.left.value, str) and marg.left.value.startswith('%s'):
+        r = marg.right
+        return r.elts[0] if isinstance(r, ast.Tuple) and r.elts else r
+    if isinstance(marg, ast.Call) and isinstance(marg.func, ast.Attribute) and marg.func.attr == 'format' and \
+            isinstance(marg.func.value, ast.Constant) and isinstance(marg.func.value.value, str):
+        t = marg.func.value.value
+        if t.startswith('{}') or t.startswith('{0}'):
+            return marg.args[0] if marg.args else None
+        if t[:1] in 'xw':
+            return ast.Constant(value=t)
+    if isinstance(marg, ast.Name):
+        return marg
+    return None
+
+
 def _tar_mode_ok(f, marg):
+    """(True/False/None, why): None = a form of the mode expression the rule does not model (assumed)."""
+    from ..pathcond import runs_under
+    from ._trunc import folder
+    from .C20 import fold
     if marg is None:
         return False, 'no mode argument: tarfile default is read'
-    if isinstance(marg, ast.Constant):
-        return (str(marg.value).startswith('x'), 'constant non-exclusive tar mode')
-    if not isinstance(marg, ast.JoinedStr) or not marg.values or \
-            not isinstance(marg.values[0], ast.FormattedValue) or \
-            not isinstance(marg.values[0].value, ast.Name):
-        return False, 'unmodelled tar mode expression'
-    var = marg.values[0].value.id
+    head = _mode_head(marg)
+    if head is None:
+        return None, 'unmodelled tar mode expression'
+    ft = folder({'overwrite': False}, f)
+
+    def const_under(e):
+        try:
+            v = fold(e, {'overwrite': False})
+            return v if isinstance(v, str) else None
+        except Exception:
+            return None
+    v = const_under(head)
+    if v is not None:
+        return (v.startswith('x'), f'tar mode {v!r} when overwrite is false')
+    if not isinstance(head, ast.Name):
+        return None, 'unmodelled tar mode expression'
     from ..astutil import defs_of
-    ds = defs_of(f.node, var)
+    ds = defs_of(f.node, head.id)
     if not ds:
-        return False, f'{var} has no definition'
+        return None, f'{head.id} has no definition in archive'
     seen_x = False
     for val, st in ds:
-        if not (isinstance(val, ast.Constant) and isinstance(val.value, str)):
-            return False, f'{var} assigned a non-constant'
-        if val.value.startswith('x'):
-            seen_x = True
-            continue
-        # non-exclusive: must be on the overwrite-true side of a test on overwrite
-        ok = False
-        for p, field in enclosing(f.node, st):
-            if isinstance(p, ast.If) and field in ('body', 'orelse'):
-                def mk(ow):
-                    return lambda e: ow if isinstance(e, ast.Name) and e.id == 'overwrite' else None
-                vt, vf = eval_bool(p.test, mk(True)), eval_bool(p.test, mk(False))
-                if vt is None or vf is None:
-                    continue
-                taken_when_true = (field == 'body') == vt
-                taken_when_false = (field == 'body') == vf
-                if taken_when_true and not taken_when_false:
-                    ok = True
-                break
-        if not ok:
-            return False, f"{var} = {val.value!r} is not confined to the overwrite=True branch"
+        v = const_under(val)
+        if v is None:
+            return None, f'{head.id} assigned a value the rule cannot fold'
+        reach = runs_under(f, st, ft)
+        if v.startswith('x'):
+            seen_x = seen_x or reach is not False
+        elif reach is not False:
+            return False, f"{head.id} = {v!r} is reachable when overwrite is false: an existing archive is overwritten"
     if not seen_x:
-        return False, f"no exclusive-create ('x') definition of {var}"
+        return False, f"no exclusive-create ('x') definition of {head.id} is reachable when overwrite is false"
     return True, ''
+
